@@ -299,6 +299,34 @@ fn needs_quote(s: &[u8]) -> bool {
         || core_float(s)
         || s.first().is_some_and(blank)
         || s.last().is_some_and(blank)
+        || plain_breaks(s)
+}
+/// what ends or cannot start a plain scalar (YAML 1.2.2, 7.3.3): a `#` after a blank starts a
+/// comment, a `:` before a blank or at the end is a mapping indicator, a line break ends a
+/// one-line scalar, and an indicator cannot be the first character (`?`, `:`, `-` may, when a
+/// non-blank follows)
+fn plain_breaks(s: &[u8]) -> bool {
+    let blank = |c: u8| c == b' ' || c == b'\t';
+    let mut i = 0;
+    while i < s.len() {
+        let c = s[i];
+        if c == b'\n' || c == b'\r' {
+            return true;
+        }
+        if c == b'#' && i > 0 && blank(s[i - 1]) {
+            return true;
+        }
+        if c == b':' && (i + 1 == s.len() || blank(s[i + 1])) {
+            return true;
+        }
+        i += 1;
+    }
+    match s {
+        [b'?' | b':' | b'-'] => true,
+        [b'?' | b':' | b'-', next, ..] => blank(*next),
+        [c, ..] => matches!(c, b',' | b'[' | b']' | b'{' | b'}' | b'#' | b'&' | b'*' | b'!' | b'|' | b'>' | b'\'' | b'"' | b'%' | b'@' | b'`'),
+        [] => false,
+    }
 }
 fn quote_point(s: &[u8]) {
     // the literal is in the property's domain (guards against a vacuous implication) ...
@@ -347,10 +375,30 @@ fn c14_yaml_quote_blank() {
     quote_point(b"a\t");
     quote_point(b"a b ");
 }
+/// comments, mapping indicators, line breaks inside the string
+#[kani::proof]
+#[kani::unwind(12)]
+fn c14_yaml_quote_inside() {
+    quote_point(b"a #b");
+    quote_point(b"a\t#b");
+    quote_point(b"a: b");
+    quote_point(b"a:");
+    quote_point(b"a\nb");
+}
+/// indicators in first position
+#[kani::proof]
+#[kani::unwind(24)]
+fn c14_yaml_quote_first() {
+    quote_point(b"#a");
+    quote_point(b"- a");
+    quote_point(b"-");
+    quote_point(b"\"a");
+}
 /// vacuity guard for `needs_quote`: ordinary words and non-numbers are outside the domain
 #[kani::proof]
 #[kani::unwind(12)]
 fn c14_yaml_quote_spec_sanity() {
     assert!(!needs_quote(b"a b") && !needs_quote(b"+") && !needs_quote(b".") && !needs_quote(b"+a") && !needs_quote(b"1a") && !needs_quote(b"e1") && !needs_quote(b"0x"));
     assert!(needs_quote(b"1.") && needs_quote(b"1.5E-3") && needs_quote(b"0o17"));
+    assert!(!needs_quote(b"a#b") && !needs_quote(b"a:b") && !needs_quote(b"-a") && !needs_quote(b"a-") && !needs_quote(b"a[b"));
 }
